@@ -21,8 +21,9 @@ Ltac omon H :=
           repeat match goal with x : (_ * _)%type |- _ => destruct x end);
   cbv beta iota in H.
 
-Lemma first_phase_step_inv m s st rops s' st' rops' :
-  first_phase_step m s st rops = Ok (Some (s', st', rops')) ->
+(* everything a successful iteration consists of, up to (not including) first_phase_verify *)
+Definition fp_pre_step (m : mode) (s : pstate) (st : stats) (rops : list rowop)
+  (s' : pstate) (st' : stats) (rops' : list rowop) : Prop :=
   exists end_row chosen r s1 s2 st1 s3 st2 tv pco r1 wu ec st3 s4 s5,
     usub m (ps_height s) (num_hdpc s) = Ok end_row /\
     first_phase_selection m st (ps_A s) (ps_i s) end_row = Ok (Some (chosen, r)) /\
@@ -39,13 +40,35 @@ Lemma first_phase_step_inv m s st rops s' st' rops' :
     st_resize m st2 (ps_A s3) (ps_i s3 + 1) end_row (ps_i s3 + 1) ec pco = Ok st3 /\
     ofold (eliminate_row m r (ps_i s) tv) pco (s3, st3, RSwap (ps_i s) chosen :: rops) = Ok (s4, st', rops') /\
     eliminate_hdpc m (num_hdpc s) (ps_i s) tv r s4 = Ok s5 /\
-    (match m with Checked => first_phase_verify (advance s5 r1) | Release => Ok tt end) = Ok tt /\
     s' = advance s5 r1.
+
+Definition verify_of (m : mode) (s : pstate) : outcome unit :=
+  match m with Checked => first_phase_verify s | Release => Ok tt end.
+
+Lemma first_phase_step_inv m s st rops s' st' rops' :
+  first_phase_step m s st rops = Ok (Some (s', st', rops')) ->
+  fp_pre_step m s st rops s' st' rops' /\ verify_of m s' = Ok tt.
 Proof.
   unfold first_phase_step. intros H. omon H.
   destruct a0 as [[chosen r]|]; [|discriminate]. omon H.
   inversion H; subst. apply N.leb_le in As. destruct a10.
+  split; [|exact E13]. unfold fp_pre_step.
   do 16 eexists. repeat (split; [eassumption|]). reflexivity.
+Qed.
+
+(* conversely: the run of an iteration whose parts succeed *)
+Lemma fp_pre_step_run m s st rops s' st' rops' : fp_pre_step m s st rops s' st' rops' ->
+  first_phase_step m s st rops =
+    match verify_of m s' with Ok _ => Ok (Some (s', st', rops')) | Panic c => Panic c end.
+Proof.
+  intros (end_row & chosen & r & s1 & s2 & st1 & s3 & st2 & tv & pco & r1 & wu & ec & st3 & s4 & s5 &
+    Eer & Esel & Hch & Esw & EX & Est & Esub & Etv & Epco & Er1 & Ewu & Eec & Ers & Eel & Ehd & ->).
+  unfold first_phase_step. rewrite Eer. cbn [obind]. rewrite Esel. cbn [obind].
+  apply N.leb_le in Hch. rewrite Hch. cbn [assert_ok obind].
+  rewrite Esw. cbn [obind]. rewrite EX. cbn [obind]. rewrite Est. cbn [obind]. rewrite Esub. cbn [obind].
+  rewrite Etv. cbn [obind]. rewrite Epco. cbn [obind]. rewrite Er1. cbn [obind]. rewrite Ewu. cbn [obind].
+  rewrite Eec. cbn [obind]. rewrite Ers. cbn [obind]. rewrite Eel. cbn [obind]. rewrite Ehd. cbn [obind].
+  unfold verify_of. destruct m; [reflexivity|]. destruct (first_phase_verify (advance s5 r1)) as [[]|c]; reflexivity.
 Qed.
 
 Lemma first_phase_step_none_inv m s st rops :
